@@ -816,13 +816,65 @@ class Variant:
     records  the ScriptList recipe (tools/fontbuild.py)
     chosen   the script tag select_script must choose for this script's text (None: no usable record)
     lang     None, or (BCP 47 language, its OpenType tag): the 7 features sit ONLY under that language system
-    main     the layout with the script's own tags and the features under the default language system"""
+    main     the layout with the script's own tags and the features under the default language system
+    featmap  None, or which lookups each of the 7 features lists (features SHARING lookups, lookups listed in any order)"""
 
-    def __init__(self, name, records, chosen, lang=None, main=False):
+    def __init__(self, name, records, chosen, lang=None, main=False, featmap=None):
         self.name, self.records, self.chosen, self.lang, self.main = name, records, chosen, lang, main
+        # featmap[j] = the lookup indices feature FEATS[j] lists, in the order it lists them (None: feature j -> [lookup j]).
+        # Lookup l maps every letter into glyph block l + 1, so a letter that takes form j must come out in the block of the
+        # LOWEST lookup its feature lists (lookups of a stage run in index order; a substituted letter is no longer covered)
+        self.featmap = featmap
+
+    def lookup_of(self, form):
+        """the lookup (= glyph block - 1) a letter of `form` (0..6, 7 = none) must have been substituted by"""
+        if form == 7 or self.featmap is None:
+            return form
+        return min(self.featmap[form])
 
 
-def e2e_variants(sd, lang):
+BASIC_FORMS = [0, 1, 4, 6]          # isol fina medi init: the forms every joining script has (indices into FEATS)
+
+
+def share_variants(sd, r, recs, chosen):
+    """Fonts whose positional features SHARE lookups (initial and medial shape identical, isolated and final shape identical,
+    ... — common in real fonts): for every pair and every triple of the forms the script can take, the features of the group
+    list ONE lookup (that of a random member; the others' own lookups stay unreferenced); the four basic forms in two shared
+    pairs; and `order` layouts where the lookup indices are permuted against the feature order and every feature lists TWO
+    lookups — its own and the own lookup of another feature — in random order inside the feature's list."""
+    forms = list(range(7)) if ("A" in sd.alpha or "S" in sd.alpha) else BASIC_FORMS
+    out = []
+    def shared(name, groups):
+        fm = [[j] for j in range(7)]
+        for g in groups:
+            keep = r.choice(list(g))
+            for j in g:
+                fm[j] = [keep]
+        if any(v.name == name for v in out):             # the same group drawn twice: keep the names unique
+            name += "#" + str(sum(v.name.split("#")[0] == name for v in out) + 1)
+        out.append(Variant(name, recs, chosen, featmap=fm))
+    for a, b in itertools.combinations(forms, 2):
+        shared(f"share-{FEATS[a]}+{FEATS[b]}", [(a, b)])
+    if forms is BASIC_FORMS:
+        # a form of the Syriac rules sharing with a basic form (the feature is not enabled for this script: no effect allowed)
+        for _ in range(2):
+            a, b = r.choice(BASIC_FORMS), r.choice([2, 3, 5])
+            shared(f"share-{FEATS[a]}+{FEATS[b]}", [(a, b)])
+    for g in itertools.combinations(BASIC_FORMS, 3):
+        shared("share-" + "+".join(FEATS[j] for j in g), [g])
+    pp = r.shuffle(list(BASIC_FORMS))
+    shared("share-" + "+".join(FEATS[j] for j in pp[:2]) + "," + "+".join(FEATS[j] for j in pp[2:]), [pp[:2], pp[2:]])
+    for i in range(3):
+        perm = r.shuffle(list(range(7)))
+        fm = []
+        for j in range(7):
+            other = r.choice([x for x in forms if x != j])
+            fm.append(r.shuffle([perm[j], perm[other]]))
+        out.append(Variant(f"order-{i}", recs, chosen, featmap=fm))
+    return out
+
+
+def e2e_variants(sd, lang, r=None):
     """ScriptList layouts a font for script `sd` may come with; every record carries the same 7 features, so the
     output tells whether the joining analysis ran, not which record was read."""
     own = [tag_str(t) for t in sd.ot]
@@ -842,6 +894,8 @@ def e2e_variants(sd, lang):
         lrec = {"tag": lang[1], "required": None, "features": list(range(7))}
         vs.append(Variant("own/lang", [rec(t, None, [lrec]) for t in own], own[0], lang=lang))
         vs.append(Variant("only-DFLT/lang", [rec("DFLT", empty, [lrec])], "DFLT", lang=lang))
+    if r is not None:
+        vs += share_variants(sd, r, [rec(t) for t in own], own[0])
     return vs
 
 
@@ -872,7 +926,8 @@ def e2e_font(sd, var=None):
         "advances": [600] * (1 + 8 * k),
         "gsub": {
             "scripts": scripts,
-            "features": [{"tag": f, "lookups": [j]} for j, f in enumerate(FEATS)],
+            "features": [{"tag": f, "lookups": list(var.featmap[j]) if var is not None and var.featmap else [j]}
+                         for j, f in enumerate(FEATS)],
             "lookups": [{"type": 1, "flag": 0,
                          "subtables": [{"format": 1, "coverage": {"ranges": [(1, k)]}, "delta": k * (j + 1)}]}
                         for j in range(7)],
@@ -908,12 +963,13 @@ def shape_e2e(ctx, shim, model, ch, r, n, per_script, lay):
         cl = [x for x in CLASSES if x in sd.alpha]
         ctxs = [""] + cl
         nc = len(cl)
-        variants[sd.iso] = vs = e2e_variants(sd, r.choice(langs) if langs else None)
+        variants[sd.iso] = vs = e2e_variants(sd, r.choice(langs) if langs else None, r)
+        assert len({v.name for v in vs}) == len(vs), "variant names key the fonts: they must be unique"
         lens = {}
         for var in vs:
             # layouts that are only counted get a token share
             idle = var.chosen is None or e2e_exempt(sd, sd.dir, var.chosen)
-            budget = per_script if var.main else max(per_script // (64 if idle else 8), 1)
+            budget = per_script if var.main else max(per_script // (64 if idle or var.featmap else 8), 1)
             mx = 1
             while (nc + 1) ** 2 * sum(nc ** i for i in range(1, mx + 2)) <= budget and mx < 6:
                 mx += 1
@@ -929,7 +985,9 @@ def shape_e2e(ctx, shim, model, ch, r, n, per_script, lay):
                         "specials": ["%04X:%s" % (c, sd.class_of[c]) for c in sd.specials],
                         "exhaustive_len": lens[vs[0].name], "guessable": sd.own_ok,
                         "variants": {v.name: {"chosen": v.chosen, "exhaustive_len": lens[v.name],
-                                              **({"language": list(v.lang)} if v.lang else {})} for v in vs}}
+                                              **({"language": list(v.lang)} if v.lang else {}),
+                                              **({"feature_lookups": {FEATS[j]: v.featmap[j] for j in range(7)}} if v.featmap else {})}
+                                     for v in vs}}
     for k in range(2 * n if scripts else 0):
         sd = r.choice(scripts)
         vs = variants[sd.iso]
@@ -1056,9 +1114,11 @@ def shape_e2e(ctx, shim, model, ch, r, n, per_script, lay):
                 for i in range(1, len(want)):
                     if t[i] in FVS:
                         want[i] = want[i - 1]
+        forms_want = want
+        want = [var.lookup_of(w) for w in want]           # glyph block - 1 the letter must come out in
         wants[ci] = want
         got, got_letters = decode(o, d, k, len(t))
-        for a in got or []:
+        for a in (got or []) if var.featmap is None else []:
             dist[a] = dist.get(a, 0) + 1
         ok = got == want and got_letters == sorted(1 + sd.letters.index(c) for c in t)
         if not ok:
@@ -1075,9 +1135,16 @@ def shape_e2e(ctx, shim, model, ch, r, n, per_script, lay):
                 layout = "; ".join(f"'{x['tag']}'" + ("" if x.get("default") and x["default"]["features"] else " (default language system without features)")
                                    + "".join(f" + language system '{l['tag']}'" for l in x["langs"]) for x in var.records)
                 ctx.violation(f"shape() on the positional-forms font of script {sd.iso} (own OpenType tag {'/'.join(tag_str(x) for x in sd.ot)}; "
-                              f"ScriptList of the font: {layout}; chosen script '{var.chosen}'; {mode}): forms {got} differ from the "
-                              f"{'expected (no feature selected) ' if lm in ('absent', 'other') else 'spec '}{want} for {orc}",
+                              f"ScriptList of the font: {layout}; chosen script '{var.chosen}'; {mode}"
+                              + ("" if var.featmap is None else "; features -> lookups "
+                                 + " ".join(f"{FEATS[j]}:{var.featmap[j]}" for j in range(7))
+                                 + "; lookup l puts a letter into glyph block l+1, listed below as l") +
+                              f"): forms {got} differ from the "
+                              f"{'expected (no feature selected) ' if lm in ('absent', 'other') else 'spec '}{want}"
+                              + ("" if var.featmap is None else f" (= lookups of the spec's forms {[ACTION_NAMES[w] for w in forms_want]})")
+                              + f" for {orc}",
                               {"stage": "search", "stream": "shape-e2e", "script": sd.iso, "mode": mode, "variant": var.name,
+                               **({"feature_lookups": {FEATS[j]: var.featmap[j] for j in range(7)}} if var.featmap else {}),
                                "chosen_gsub_script": var.chosen, "font_line": fontlines[(sd.iso, var.name)], "request": ln,
                                "oracle": orc, "expected": want, "observed": o})
     # the recycled runs: same oracle (spec on the text and its DECLARED context), and the fresh-buffer answer beside it
@@ -1099,8 +1166,11 @@ def shape_e2e(ctx, shim, model, ch, r, n, per_script, lay):
             ctx.violation(f"shape() through a RECYCLED buffer (earlier use with joining pre- and post-context, clear(), request "
                           f"filled with push_str and only its declared context) on the positional-forms font of script {sd.iso}: "
                           f"forms {got} differ from the spec {want} for {orc}"
+                          + ("" if var.featmap is None else " (features -> lookups "
+                             + " ".join(f"{FEATS[j]}:{var.featmap[j]}" for j in range(7)) + "; forms listed as lookup indices)")
                           + ("; the same request through a fresh buffer gives the spec's forms" if fresh_ok else ""),
                           {"stage": "search", "stream": "shape-e2e-recycled", "script": sd.iso, "variant": var.name,
+                           **({"feature_lookups": {FEATS[j]: var.featmap[j] for j in range(7)}} if var.featmap else {}),
                            "font_line": fontlines[(sd.iso, var.name)], "request": rl, "fresh_request": lines[ci],
                            "oracle": orc, "expected": want, "observed": ro, "fresh_observed": o})
     ctx.note_search("shape-e2e-recycled", len(rlines), rjudged, mismatches=rbad, mismatches_per_script=rper,
@@ -1122,7 +1192,11 @@ def shape_e2e(ctx, shim, model, ch, r, n, per_script, lay):
                          "the script's OpenType tag(s) by the crate's own mapping (main layout; each tag alone where there are "
                          "several); only 'DFLT' / only 'dflt' / only 'latn'; 'DFLT'+'latn'+an unrelated script; own tag(s) next to "
                          "an empty 'DFLT'; the features only under a language system (own tag / 'DFLT') with the buffer language "
-                         "selecting it, absent, or another; only an unrelated script.  All class words up to the per-layout length x "
+                         "selecting it, absent, or another; only an unrelated script; and, under the own tag(s), fonts whose positional features "
+                         "SHARE lookups: every pair and every triple of the forms the script takes listing one lookup, two shared pairs, "
+                         "a basic form sharing with a Syriac-only form, and `order` layouts (lookup indices permuted against the feature "
+                         "order, every feature listing two lookups — its own and another feature's — in random order): a letter must "
+                         "come out in the glyph block of the lowest lookup its form's feature lists.  All class words up to the per-layout length x "
                          "contexts of length 0/1 (explicit script, native horizontal direction) plus random words <= 30 with "
                          "contexts <= 5 (1/4 with guessed script, 1/5 vertical for the scripts not handled by the Arabic shaper). "
                          "CLASS of a character = its explicit entry in the table PARSED from the source and laid out by the table's own "
